@@ -14,12 +14,13 @@ Third-party primitives are parameters: the detached ChaCha20-Poly1305 (`Aead`, i
 derivation (`H`), `String::from_utf8` (`U`), the CBOR decoder of `ProfileKey::from_slice` (`parse`).  Core Lean only.
 -/
 import AskarModel.Base.Bytes
+import AskarModel.Generated.Flags
 
 namespace Askar.Decrypt
 
 /-- **The one switch for defect D2** (`/verif/proposals/C03-D2.diff`).  `false` = current tree: `StoreKey::unwrap_data`
     slices `[..12]` without a length check.  Flip to `true` once the fix is applied (see `Props/C03.lean` for what to restate). -/
-def unwrapChecksLength : Bool := false
+def unwrapChecksLength : Bool := Askar.Generated.Flags.unwrapChecksLength
 
 /-- `askar_storage::ErrorKind` -/
 inductive EK
